@@ -31,8 +31,8 @@ class Repeat(Operation):
             if not isinstance(self._repeats, int):
                 (self._repeats,) = self._repeats
 
-            if not self._repeats:
-                # skip accumulation if `repeats` is all zeros
+            if not self._repeats or a.size == 0:
+                # skip accumulation if `repeats` is all zeros, or if there is nothing to repeat
                 return np.zeros(a.shape, dtype=grad.dtype)
 
             if self._axis is None:
